@@ -110,9 +110,13 @@ def polars_coerce_failure_cases(
         is_coercible = is_coercible.collect()
     except COERCION_ERRORS:
         # If coercion fails, all of the relevant rows are failure cases
+        # (a null is not a value that failed to convert)
         failure_cases = data_container.lazyframe.select(
             data_container.key or "*"
-        ).collect()
+        )
+        if data_container.key is not None:
+            failure_cases = failure_cases.drop_nulls()
+        failure_cases = failure_cases.collect()
 
         is_coercible = (
             data_container.lazyframe.with_columns(
